@@ -94,6 +94,15 @@ inline std::string c07_class(Outcome const& o)
     return s;
 }
 
+// an overflow that the tag must signal ended in an undefined state instead (e.g. __builtin_unreachable in an NDEBUG build): the
+// shipped build neither throws nor terminates, so this is a C06 violation as well as a C07 event
+inline std::string event_class(Outcome const& o, int tagid, int pol)
+{
+    std::string c = c07_class(o);
+    if (pol != 0 && tagid != 0 && o.kind == UB_TRAP) return "overflow_signal_replaced_by_undefined_state:" + c;
+    return c;
+}
+
 template<class T> X raw_to_x(T v) { return X::of(v); }
 
 // boundary bookkeeping for the minimum-observation rule
@@ -134,6 +143,24 @@ bool solve(X const& x, X const& target, R& y)
 }
 
 enum Entry { E_OPERATE = 0, E_WRAPPER = 1 };
+
+// shift counts beyond 2w+1: the non-negative lattice of the count type and k*2^j + s with s in [0, w]
+template<class R>
+std::vector<R> big_counts(int w, Rng& rng)
+{
+    std::vector<R> cs;
+    for (R c : values_for<R>())
+        if (!(c < 0) && X::of(c) > X::from_i(2 * w + 1)) cs.push_back(c);
+    for (int j : {8, 16, 32, 64})
+        if (width_of<R> > j + 1)
+            for (int s : {0, 1, 3, w - 1, w})
+                for (int m = 0; m < 3; ++m) {
+                    X k = m == 0 ? X::from_u(1) : m == 1 ? X::from_u(2) : X::from_u(1 + rng.below(1000));
+                    X c = shl(k, (unsigned)j) + X::from_i(s);
+                    if (c <= xmax<R>()) cs.push_back((R)c.mag128());
+                }
+    return cs;
+}
 
 template<class O, class TG, class L, class R, int EntryPoint>
 void binop(char const* desc)
@@ -191,7 +218,7 @@ void binop(char const* desc)
             return;
         }
         std::string cls;
-        if (is_c07_event(o, TG::id)) cls = c07_class(o);
+        if (is_c07_event(o, TG::id)) cls = event_class(o, TG::id, x.pol);
         else if (!type_ok) cls = "result_type";
         else {
             // known defect model: mixed signedness, unsigned result, the signed operand is negative and the
@@ -228,6 +255,10 @@ void binop(char const* desc)
         if constexpr (width_of<R> >= 16)
             for (size_t i = 0; i < nl; ++i)
                 for (R c : {(R)1000, tmax<R>(), (R)(tmax<R>() - 1)}) one(as[i], c, true);
+        // every non-negative lattice value of the count type, and counts that are small modulo a narrower width (k*2^j + s): a count
+        // must not be looked at through a narrower type
+        for (R c : big_counts<R>(width_of<Res>, rng))
+            for (size_t i = 0; i < nl; i += (i < 8 ? 1 : 5)) one(as[i], c, true);
     } else if (small) {
         t.exhaustive = true;
         for (long a = (long)tmin<L>(); a <= (long)tmax<L>(); ++a)
@@ -258,6 +289,77 @@ void binop(char const* desc)
         }
         long n = env_long("VERIF_N", 20000);
         for (long i = 0; i < n && !t.closed; ++i) one(rand_val<L>(rng), rand_val<R>(rng), false);
+    }
+    t.emit();
+}
+
+// ---- C07 only: the operators the tags do not range-check (% and >>) must still be total: every outcome is a value.
+// (the value itself is compared with the exact remainder / arithmetic shift and a mismatch is counted as an informational class)
+struct Mod { static constexpr char const* name = "%"; static constexpr int id = 5; };
+struct Shr { static constexpr char const* name = ">>"; static constexpr int id = 6; };
+template<class O, class TG, class L, class R, int EntryPoint>
+void total(char const* desc)
+{
+    if (!kernel_selected(desc)) return;
+    using Tag = typename TG::tag;
+    Tally t(desc);
+    Rng rng(mix(env_seed(), hash_str(desc)));
+    auto one = [&](L a, R b, bool distinct) {
+        if (t.closed) { ++t.notrun; return; }
+        if constexpr (O::id == 5) if (b == 0) { ++t.ood; return; }
+        if constexpr (O::id == 6) if (b < 0) { ++t.ood; return; }
+        X xa = X::of(a), xb = X::of(b), got, want;
+        bool have_want = false;
+        if constexpr (O::id == 5) {
+            using Res = decltype(L{} % R{1});
+            // the built-in usual arithmetic conversions apply first: only judged for values when both operands are representable in it
+            if (xa >= xmin<Res>() && xa <= xmax<Res>() && xb >= xmin<Res>() && xb <= xmax<Res>()) { want = trem(xa, xb); have_want = true; }
+        } else {
+            unsigned long c = xb.mag_fits128() && xb.mag128() < 100000 ? (unsigned long)xb.mag128() : 100000ul;
+            X q, r;
+            X::divmod(xa, shl(X::from_u(1), c > 300 ? 300 : c), q, r);
+            if (r.neg) q = q - X::from_u(1);  // floor
+            want = q;
+            have_want = true;
+        }
+        Outcome o = guarded([&] {
+            if constexpr (EntryPoint == E_OPERATE) {
+                if constexpr (O::id == 5) got = X::of(cnl::_impl::operate<cnl::_impl::modulo_op, Tag>{}(a, b));
+                else got = X::of(cnl::_impl::operate<cnl::_impl::shift_right_op, Tag>{}(a, b));
+            } else {
+                auto wl = cnl::_impl::from_rep<cnl::overflow_integer<L, Tag>>(a);
+                auto wr = cnl::_impl::from_rep<cnl::overflow_integer<R, Tag>>(b);
+                if constexpr (O::id == 5) got = X::of(cnl::_impl::to_rep(wl % wr));
+                else got = X::of(cnl::_impl::to_rep(wl >> wr));
+            }
+        });
+        bool nt = distinct && (is_boundary(a) || is_boundary(b));
+        auto in = [&] { return istr(a) + " " + O::name + " " + istr(b); };
+        if (o.kind == VALUE) {
+            t.held(o, nt);
+            if (have_want && got != want) t.classes["value_differs_from_exact(info)"]++;
+            t.sample(nt, in, [&] { return std::string("a value (no undefined operation)"); }, [&] { return outcome_str(o, got.str()); });
+        } else
+            t.violation(c07_class(o), o, in(), "a value (no undefined operation)", outcome_str(o, got.str()), nt);
+    };
+    std::vector<L> as = values_for<L>();
+    size_t nl = as.size();
+    for (int i = 0; i < 200; ++i) as.push_back(rand_val<L>(rng));
+    if constexpr (O::id == 6) {
+        using Res = decltype(L{} >> 1);
+        int maxc = 2 * width_of<Res> + 1;
+        for (size_t i = 0; i < as.size(); ++i)
+            for (int c = 0; c <= maxc; ++c) {
+                if (X::of(c) > xmax<R>()) break;
+                one(as[i], (R)c, i < nl);
+            }
+        for (R c : big_counts<R>(width_of<Res>, rng))
+            for (size_t i = 0; i < nl; i += (i < 8 ? 1 : 5)) one(as[i], c, true);
+    } else {
+        std::vector<R> bs = values_for<R>();
+        for (size_t i = 0; i < nl; ++i)
+            for (size_t j = 0; j < bs.size(); ++j) one(as[i], bs[j], true);
+        for (int i = 0; i < 5000 && !t.closed; ++i) one(rand_val<L>(rng), rand_val<R>(rng), false);
     }
     t.emit();
 }
@@ -302,7 +404,7 @@ void unary_minus(char const* desc)
             if (x.pol) t.classes[x.pol > 0 ? "signalled+" : "signalled-"]++;
             t.sample(nt, [&] { return "-(" + istr(a) + ")"; }, [&] { return exp_str(x, TG::id); }, [&] { return outcome_str(o, got.str()); });
         } else {
-            std::string cls = is_c07_event(o, TG::id) ? c07_class(o) : !type_ok ? "result_type" : std::string("wrong:") + (x.pol == 0 ? "in-range" : x.pol > 0 ? "overflow+" : "overflow-") + "->" + kind_name(o.kind);
+            std::string cls = is_c07_event(o, TG::id) ? event_class(o, TG::id, x.pol) : !type_ok ? "result_type" : std::string("wrong:") + (x.pol == 0 ? "in-range" : x.pol > 0 ? "overflow+" : "overflow-") + "->" + kind_name(o.kind);
             t.violation(cls, o, "-(" + istr(a) + ")", exp_str(x, TG::id), outcome_str(o, got.str()), nt);
         }
     }
@@ -360,7 +462,7 @@ void convert_int(char const* desc)
             if (x.pol) t.classes[x.pol > 0 ? "signalled+" : "signalled-"]++;
             t.sample(nt, [&] { return istr(a); }, [&] { return exp_str(x, TG::id); }, [&] { return outcome_str(o, got.str()); });
         } else {
-            std::string cls = is_c07_event(o, TG::id) ? c07_class(o) : !type_ok ? "result_type" : std::string("wrong:") + (x.pol == 0 ? "in-range" : x.pol > 0 ? "overflow+" : "overflow-") + "->" + kind_name(o.kind);
+            std::string cls = is_c07_event(o, TG::id) ? event_class(o, TG::id, x.pol) : !type_ok ? "result_type" : std::string("wrong:") + (x.pol == 0 ? "in-range" : x.pol > 0 ? "overflow+" : "overflow-") + "->" + kind_name(o.kind);
             t.violation(cls, o, istr(a), exp_str(x, TG::id), outcome_str(o, got.str()), nt);
         }
     }
@@ -421,6 +523,8 @@ void convert_float(char const* desc)
     vs.push_back((F)-0.0);
     std::sort(vs.begin(), vs.end());
     vs.erase(std::unique(vs.begin(), vs.end()), vs.end());
+    vs.push_back((F)-0.0);  // (unique() folds -0.0 and +0.0 together; negative zero is a value of its own for sign tests)
+    vs.push_back((F)0.0);
     size_t nl = vs.size();
     for (int i = 0; i < 20000; ++i) {
         // log-uniform magnitude up to 2^(w+2)
@@ -472,7 +576,7 @@ void convert_float(char const* desc)
             if (x.band) t.classes["dont_care_band"]++;
             t.sample(nt, [&] { return fstr(a); }, [&] { return exp_str(x, TG::id); }, [&] { return outcome_str(o, got.str()); });
         } else {
-            std::string cls = is_c07_event(o, TG::id) ? c07_class(o) : std::string("wrong:") + (x.pol == 0 ? "in-range" : x.pol > 0 ? "overflow+" : "overflow-") + "->" + kind_name(o.kind);
+            std::string cls = is_c07_event(o, TG::id) ? event_class(o, TG::id, x.pol) : std::string("wrong:") + (x.pol == 0 ? "in-range" : x.pol > 0 ? "overflow+" : "overflow-") + "->" + kind_name(o.kind);
             t.violation(cls, o, fstr(a), exp_str(x, TG::id), outcome_str(o, got.str()), nt);
         }
     }
@@ -524,7 +628,7 @@ void compound(char const* desc)
                 if (x.pol) t.classes[x.pol > 0 ? "signalled+" : "signalled-"]++;
                 t.sample(nt, in, [&] { return exp_str(x, TG::id); }, [&] { return outcome_str(o, got.str()); });
             } else {
-                std::string cls = is_c07_event(o, TG::id) ? c07_class(o) : std::string("wrong:") + (x.pol == 0 ? "in-range" : x.pol > 0 ? "overflow+" : "overflow-") + "->" + kind_name(o.kind);
+                std::string cls = is_c07_event(o, TG::id) ? event_class(o, TG::id, x.pol) : std::string("wrong:") + (x.pol == 0 ? "in-range" : x.pol > 0 ? "overflow+" : "overflow-") + "->" + kind_name(o.kind);
                 bool signed_operand_negative = (is_sgn<L> && xa.neg) || (is_sgn<R> && xb.neg);
                 if constexpr ((is_sgn<L> != is_sgn<R>) && !is_sgn<Res>) {
                     if (cls.rfind("wrong:", 0) == 0 && signed_operand_negative) {
@@ -576,7 +680,7 @@ void incdec(char const* desc)
                 if (x.pol) t.classes[x.pol > 0 ? "signalled+" : "signalled-"]++;
                 t.sample(nt, [&] { return std::string(fn[form]) + " x=" + istr(a); }, [&] { return exp_str(x, TG::id); }, [&] { return outcome_str(o, got.str()); });
             } else {
-                std::string cls = is_c07_event(o, TG::id) ? c07_class(o) : std::string("wrong:") + (x.pol == 0 ? "in-range" : x.pol > 0 ? "overflow+" : "overflow-") + "->" + kind_name(o.kind);
+                std::string cls = is_c07_event(o, TG::id) ? event_class(o, TG::id, x.pol) : std::string("wrong:") + (x.pol == 0 ? "in-range" : x.pol > 0 ? "overflow+" : "overflow-") + "->" + kind_name(o.kind);
                 t.violation(cls, o, std::string(fn[form]) + " x=" + istr(a), exp_str(x, TG::id), outcome_str(o, got.str() + ",ret=" + ret.str()), nt);
             }
         }
